@@ -1077,7 +1077,12 @@ impl<K: EnrKey> FromStr for Enr<K> {
         let bytes = URL_SAFE_NO_PAD
             .decode(decode_string)
             .map_err(|e| format!("Invalid base64 encoding: {e:?}"))?;
-        Self::decode(&mut bytes.as_ref()).map_err(|e| format!("Invalid ENR: {e:?}"))
+        let mut buf: &[u8] = bytes.as_ref();
+        let enr = Self::decode(&mut buf).map_err(|e| format!("Invalid ENR: {e:?}"))?;
+        if !buf.is_empty() {
+            return Err("Invalid ENR: trailing bytes after the record".to_string());
+        }
+        Ok(enr)
     }
 }
 
